@@ -586,8 +586,19 @@ class Ctx:
               "coverage": cov, "assumptions": self.assumptions, "wall_s": round(wall, 2),
               "violations": len(self.violations), "known_findings_hit": [h[0] for h in self.known_hits], "notes": self.notes}
         os.makedirs(os.path.join(OUT, "evidence"), exist_ok=True)
+        text = json.dumps(ev, indent=1, default=str)
+        if len(text) > 300000:
+            # an evidence file is a record, not a data dump: a sample that happens to be a huge case is abbreviated
+            def shrink(x, budget=1500):
+                t = json.dumps(x, default=str)
+                return x if len(t) <= budget else {"abbreviated": t[:budget] + " ...", "json_chars": len(t)}
+            cov["samples"] = [shrink(x) for x in cov.get("samples", [])]
+            for k in list(cov):
+                if k not in ("samples", "rule", "trusted_base", "checker_cmd") and len(json.dumps(cov[k], default=str)) > 60000:
+                    cov[k] = shrink(cov[k], 4000)
+            text = json.dumps(ev, indent=1, default=str)
         with open(os.path.join(OUT, "evidence", self.prop + ".json"), "w") as f:
-            json.dump(ev, f, indent=1, default=str)
+            f.write(text)
         for sig, what in self.known_hits:
             print("KNOWN-FINDING: property=%s %s" % (self.prop, what))
         for v in self.violations:
